@@ -65,6 +65,19 @@ fn execute(file: &File, dsl: &str, tree: &Tree, source: &str, globals: &BTreeMap
     }
 }
 
+/// Two results of one (file, source, mode): equal, or - when one of them ran on another parse of
+/// the source - equal in what does not mention addresses.
+fn agree(got: &Transcript, want: &Transcript, other_parse: bool) -> bool {
+    if !other_parse {
+        return got == want;
+    }
+    match (got, want) {
+        (Transcript::Ok { graph: a, .. }, Transcript::Ok { graph: b, .. }) => a == b,
+        (Transcript::Err { text: a, .. }, Transcript::Err { text: b, .. }) => a == b || a.contains("[syntax node") || b.contains("[syntax node"),
+        _ => false,
+    }
+}
+
 struct Prog {
     dsl: String,
     globals: BTreeMap<String, CVal>,
@@ -208,9 +221,19 @@ pub fn case(tape: &[u32]) -> CaseOutcome {
     for _ in 0..steps {
         let (i, j, lazy) = (h.choose(progs.len()), h.choose(sources.len()), h.chance(1, 2));
         let cancel = if h.chance(1, 5) { Some(1 + h.choose(12) as u64) } else { None };
-        let got = execute(&files[i], &progs[i].dsl, &trees[j], &sources[j], &progs[i].globals, lazy, cancel);
+        // a third of the steps parse the source again and drop that tree afterwards (node ids
+        // are addresses; later trees reuse them)
+        let reparsed;
+        let short_lived = h.chance(1, 3);
+        let tree_here: &Tree = if short_lived {
+            reparsed = pysrc::parse(&sources[j]);
+            &reparsed
+        } else {
+            &trees[j]
+        };
+        let got = execute(&files[i], &progs[i].dsl, tree_here, &sources[j], &progs[i].globals, lazy, cancel);
         report.evaluations += 1;
-        log.push(json!({"file": i, "tree": j, "lazy": lazy, "cancel_from_poll": cancel, "result": got.short()}));
+        log.push(json!({"file": i, "tree": j, "short_lived_tree": short_lived, "lazy": lazy, "cancel_from_poll": cancel, "result": got.short()}));
         if cancel.is_some() {
             failed_or_cancelled = true;
             // the same cancelled run, with a freshly loaded file on a fresh thread
@@ -223,7 +246,7 @@ pub fn case(tape: &[u32]) -> CaseOutcome {
                 .unwrap_or(Transcript::Panic("thread panicked".into()))
             });
             report.evaluations += 1;
-            if got != alone {
+            if !agree(&got, &alone, short_lived) {
                 return CaseOutcome::Fail(Failure::new(
                     "C12:history-changes-cancelled-result",
                     format!("after a history of executions on one thread, file {} on tree {} (lazy={}) cancelled from poll {:?} gives {} instead of {}", i, j, lazy, cancel, got.short(), alone.short()),
@@ -233,7 +256,10 @@ pub fn case(tape: &[u32]) -> CaseOutcome {
             continue;
         }
         let want = &isolated[&(i, j, lazy)];
-        if &got != want {
+        // another parse of the same source: the JSON form carries tree-sitter's node ids
+        // (addresses), and texts that list several syntax nodes follow their address order (the
+        // known finding, pinned separately) - the observed graph is what is compared there
+        if !agree(&got, want, short_lived) {
             return CaseOutcome::Fail(Failure::new(
                 "C12:history-changes-result",
                 format!("after a history of executions on one thread, file {} on tree {} (lazy={}) gives {} instead of {}", i, j, lazy, got.short(), want.short()),
@@ -610,6 +636,184 @@ fn probe(i: usize) -> CaseOutcome {
             }
             pass("concurrent-replace")
         }
+        11 | 12 => {
+            // debug attributes: two files with a `node` statement at the same place in the text
+            // but with different variable names, executed alternately on one thread
+            let lazy = i == 12;
+            let texts = ["(module) @mod {\n  node def\n  node @mod.scope\n  attr (def) k = 1\n}\n", "(module) @mod {\n  node ref\n  node @mod.exits\n  attr (ref) k = 1\n}\n"];
+            let source = "pass\n";
+            let run = move |dsl: &str| -> Result<String, String> {
+                let file = match load(dsl) {
+                    Ok(Ok(f)) => f,
+                    _ => return Err("rejected".into()),
+                };
+                let tree = pysrc::parse(source);
+                let functions = Functions::stdlib();
+                let globals = Variables::new();
+                let config = ExecutionConfig::new(&functions, &globals).lazy(lazy).debug_attributes(Identifier::from("dbg_loc"), Identifier::from("dbg_var"), Identifier::from("dbg_match"));
+                match call_lib(|| file.execute(&tree, source, &config, &NoCancellation)) {
+                    Err(p) => Err(format!("panic: {}", p.message)),
+                    Ok(Err(e)) => Err(format!("{}", e)),
+                    Ok(Ok(g)) => Ok(g.pretty_print().to_string()),
+                }
+            };
+            let mut alone = vec![];
+            for t in texts {
+                match std::thread::spawn(move || run(t)).join().unwrap_or(Err("thread panicked".into())) {
+                    Ok(x) => alone.push(x),
+                    Err(e) if e == "rejected" => return CaseOutcome::Discard("probe file rejected"),
+                    Err(e) => return failure("probe-fails", e),
+                }
+            }
+            for round in 0..3 {
+                for (k, t) in texts.iter().enumerate() {
+                    match run(t) {
+                        Ok(x) if x == alone[k] => {}
+                        Ok(x) => return failure("debug-attributes-depend-on-history", format!("with debug attributes (lazy={}), file {} in round {} of an alternating history gives\n{}\ninstead of\n{}", lazy, k, round, x, alone[k])),
+                        Err(e) => return failure("probe-fails", e),
+                    }
+                }
+            }
+            pass("debug-attributes-independent-of-history")
+        }
+        15 | 16 => {
+            // one loaded file visited through File::try_visit_matches in both modes, alternately
+            let first_lazy = i == 16;
+            let dsl = "(module) @m {\n  print @m\n}\n(expression_statement (identifier) @id) @stmt {\n  print @id, @stmt\n}\n(module (_)* @stmts) {\n  print @stmts\n}\n";
+            let source = "a\nb\nf(x)\n";
+            let tree = pysrc::parse(source);
+            let visit = |file: &File, lazy: bool| -> Result<Vec<String>, String> {
+                call_lib(|| {
+                    let mut out = vec![];
+                    let _ = file.try_visit_matches::<(), _>(&tree, source, lazy, |m| {
+                        let loc = m.query_location();
+                        let mut caps: Vec<String> = m.named_captures().map(|(name, q, nodes)| format!("{}{:?}={:?}", name, q, nodes.map(|n| (n.kind(), n.start_byte())).collect::<Vec<_>>())).collect();
+                        caps.sort();
+                        out.push(format!("({},{}) root={} {}", loc.row, loc.column, m.full_capture().start_byte(), caps.join(" ")));
+                        Ok(())
+                    });
+                    out.sort();
+                    out
+                })
+                .map_err(|p| format!("panic: {}", p.message))
+            };
+            let fresh = |lazy: bool| match load(dsl) {
+                Ok(Ok(f)) => visit(&f, lazy),
+                _ => Err("rejected".to_string()),
+            };
+            let file = match load(dsl) {
+                Ok(Ok(f)) => f,
+                _ => return CaseOutcome::Discard("probe file rejected"),
+            };
+            for (round, lazy) in [first_lazy, !first_lazy, first_lazy, !first_lazy].into_iter().enumerate() {
+                let (got, want) = (visit(&file, lazy), fresh(lazy));
+                if got != want {
+                    return failure("visit-depends-on-history", format!("File::try_visit_matches(lazy={}) as visit {} of one loaded file (first visit lazy={}) reports {:?}, a freshly loaded file reports {:?}", lazy, round, first_lazy, got, want));
+                }
+                if let Err(e) = got {
+                    return failure("probe-fails", e);
+                }
+            }
+            pass("visits-in-both-modes")
+        }
+        17 | 18 => {
+            // a failing stanza with a wildcard root, on trees whose first match differs in kind:
+            // the error of each run names the node of that run
+            let lazy = i == 18;
+            let dsl = "(_ (identifier)) @r {\n  node n\n  attr (n) v = @r.nope\n}\n";
+            let sources = ["a\n", "f(x)\n", "a.b\n", "def g(p):\n    pass\n"];
+            let trees: Vec<Tree> = sources.iter().map(|s| pysrc::parse(s)).collect();
+            let globals = BTreeMap::new();
+            let mut alone = vec![];
+            for (k, src) in sources.iter().enumerate() {
+                let tree = &trees[k];
+                let globals = &globals;
+                let t = std::thread::scope(|s| {
+                    s.spawn(move || match load(dsl) {
+                        Ok(Ok(f)) => execute(&f, dsl, tree, src, globals, lazy, None),
+                        _ => Transcript::Panic("rejected".into()),
+                    })
+                    .join()
+                    .unwrap_or(Transcript::Panic("thread panicked".into()))
+                });
+                match &t {
+                    Transcript::Panic(m) if m == "rejected" => return CaseOutcome::Discard("probe file rejected"),
+                    Transcript::Panic(m) => return failure("panic", m.clone()),
+                    _ => {}
+                }
+                alone.push(t);
+            }
+            if alone.iter().all(|t| !matches!(t, Transcript::Err { .. })) {
+                return CaseOutcome::Discard("probe file does not fail");
+            }
+            let file = match load(dsl) {
+                Ok(Ok(f)) => f,
+                _ => return CaseOutcome::Discard("probe file rejected"),
+            };
+            for round in 0..2 {
+                for k in [1usize, 0, 3, 2] {
+                    let got = execute(&file, dsl, &trees[k], sources[k], &globals, lazy, None);
+                    if got != alone[k] {
+                        return failure("failure-depends-on-history", format!("round {} of a history over four trees (lazy={}): on `{}` the loaded file gives {:?}, a freshly loaded file gives {:?}", round, lazy, sources[k].escape_debug(), got.short(), alone[k].short()));
+                    }
+                }
+            }
+            pass("failures-on-different-trees")
+        }
+        13 | 14 => {
+            // trees that come and go: positions of children asked for on many short-lived trees
+            // (node ids are addresses, reused by later trees)
+            let lazy = i == 14;
+            let dsl = "(module (_) @c) {\n  node n\n  attr (n) idx = (named-child-index @c), txt = (source-text @c)\n}\n";
+            let file = match load(dsl) {
+                Ok(Ok(f)) => f,
+                _ => return CaseOutcome::Discard("probe file rejected"),
+            };
+            let sources = ["a\nb\nc\n", "a;b\n", "x\n", "p\nq\n", "a;b;c;d\n", "f(x)\ng(y)\n", "pass\n", "# note\na\n# more\nb\n", "a\nb\nc\nd\ne\n", "if a:\n    b\nc\n"];
+            let run = |file: &File, source: &str| -> Result<Vec<(String, String)>, String> {
+                let tree = pysrc::parse(source);
+                let index = TreeIndex::new(&tree);
+                let functions = Functions::stdlib();
+                let globals = Variables::new();
+                let config = ExecutionConfig::new(&functions, &globals).lazy(lazy);
+                match call_lib(|| file.execute(&tree, source, &config, &NoCancellation)) {
+                    Err(p) => Err(format!("panic: {}", p.message)),
+                    Ok(Err(e)) => Err(format!("{}", e)),
+                    Ok(Ok(g)) => match observe(&g, &index) {
+                        Ok(o) => {
+                            let mut v: Vec<(String, String)> = o.nodes.iter().map(|n| (format!("{:?}", n.attrs.get("txt")), format!("{:?}", n.attrs.get("idx")))).collect();
+                            v.sort();
+                            Ok(v)
+                        }
+                        Err(e) => Err(e),
+                    },
+                }
+            };
+            // what tree-sitter itself says
+            let expect = |source: &str| -> Vec<(String, String)> {
+                let tree = pysrc::parse(source);
+                let root = tree.root_node();
+                let mut cursor = root.walk();
+                let mut v: Vec<(String, String)> = root
+                    .named_children(&mut cursor)
+                    .enumerate()
+                    .map(|(k, c)| (format!("{:?}", Some(CVal::Str(source[c.byte_range()].to_string()))), format!("{:?}", Some(CVal::Int(k as u32)))))
+                    .collect();
+                v.sort();
+                v
+            };
+            for round in 0..3 {
+                for source in sources {
+                    let want = expect(source);
+                    match run(&file, source) {
+                        Ok(got) if got == want => {}
+                        Ok(got) => return failure("result-depends-on-earlier-trees", format!("named-child-index on `{}` (lazy={}, round {} of a history over short-lived trees): {:?} instead of {:?}", source.escape_debug(), lazy, round, got, want)),
+                        Err(e) => return failure("probe-fails", e),
+                    }
+                }
+            }
+            pass("short-lived-trees")
+        }
         _ => {
             let lazy = i == 6;
             // the re-registered function is the last call of one execution and the first of the next
@@ -701,7 +905,7 @@ pub fn run_check(tier: &str) -> i32 {
     let spec = spec(tier);
     let thorough = tier == "thorough";
     let r0 = run_fixed(&spec, &[0usize], |_| pinned_address_order(), |_| vec![PINNED_TAG, 0]);
-    let probes: Vec<usize> = (0..11).collect();
+    let probes: Vec<usize> = (0..19).collect();
     let rp = run_fixed(&spec, &probes, |i| probe(*i), |i| vec![PROBE_TAG, *i as u32]);
     let r1 = merge_results(merge_results(r0, rp), run_tapes(&spec, case));
     let r2 = cross_process(&spec, if thorough { 8 } else { 3 }, if thorough { 400 } else { 120 });
